@@ -3,15 +3,24 @@
 Tie: `BasicObligationChecker().check` on the full cross product of obligation shapes × context
 values against the model's table (`Rbacx.obligationUnmet`, characterised row by row by theorems
 Rbacx.C07.*), all ordered pairs for first-failure order, and through `Guard` with built-in, custom
-(sync/async, every verdict) and raising checkers on (allowed, effect, reason, challenge)."""
+(sync/async, every verdict) and raising checkers on (allowed, effect, reason, challenge).
+
+Tie by regeneration: `BasicObligationChecker.check` is translated from the current source text in three fragments
+(harness/extractors/src_translation_obligations.py: the statements before the loop, the whole loop body, the statement after it;
+`_finite_number` stays an external function), proved equal to `Rbacx.obligationUnmet` / `Rbacx.checkObligations` by the per-run
+obligation `Run/C07_translated.lean`, and the translation is evaluated against the same statements run by CPython
+(`translated_vs_python`), which also compares the model's `finiteNumber` with the real `_finite_number`."""
 from __future__ import annotations
 
 import itertools
+import json
+import random
 
 import guardcases as gc
 import lib
 import proto
 import real
+import rbacx.core.obligations as robl
 from rbacx.core.obligations import BasicObligationChecker
 
 CTX_VALUES = ["<absent>", None, False, True, 0, 1, 2.9, 3, -1, float("nan"), float("inf"), "3", "high", "", " 2 ", [], [3], {},
@@ -83,7 +92,150 @@ def check_impl(obls, ctx, decision="permit"):
     return fresh
 
 
-def run_cases(run: lib.Run, audit: dict):
+# ---------------------------------------------------------------------- the translated checker vs the same statements run by CPython
+
+ABSENT = "<absent>"
+G_TYPES = ["require_mfa", "require_level", "http_challenge", "require_consent", "require_terms_accept", "require_captcha", "require_reauth",
+           "require_age_verified", "unknown", None, 5, ABSENT]
+G_ONS = [ABSENT, "permit", "deny", "", None, "advice", 5]
+G_ATTRS = [ABSENT, {}, None, "x", {"min": 2}, {"min": "2"}, {"min": None}, {"min": [1]}, {"min": 10 ** 400}, {"max_age": 300}, {"max_age": "300"},
+           {"scheme": "Basic"}, {"scheme": "bearer"}, {"scheme": "NTLM"}, {"scheme": 5}, {"key": "tos"}, {"key": None}, {"key": 5}, {"key": ["a"]},
+           # beyond the listed grid: floats (their str() and their reading as numbers go through the oracle tables), a dict as key
+           {"min": 1.5}, {"min": -0.0}, {"max_age": 100.0}, {"scheme": 1.5}, {"scheme": ["Basic"]}, {"key": {"a": 1}}, {"key": 1.0}, {"key": True}]
+G_MALFORMED = [None, "x", 5, []]
+G_EFFECTS = ["permit", "deny"]
+G_CTX = [{}, {"mfa": True}, {"mfa": 0}, {"auth_level": 2}, {"auth_level": "2"}, {"auth_level": 1}, {"auth_level": None}, {"auth_level": True},
+         {"consent": True}, {"consent": {"tos": True}}, {"consent": {"tos": 0}}, {"consent": "x"}, {"tos_accepted": 1}, {"captcha_passed": True},
+         {"reauth_age_seconds": 100}, {"reauth_age_seconds": 301}, {"reauth_age_seconds": "100"}, {"age_verified": True},
+         {"auth_level": 1.5}, {"auth_level": float("nan")}, {"auth_level": 10 ** 400}, {"reauth_age_seconds": 300.0}, {"reauth_age_seconds": float("inf")},
+         {"consent": {"tos": True, "True": 1, "1": 1, "5": 1}}, {"consent": []}]
+G_NUMBERS = [None, True, False, 0, 1, -1, 2, 10 ** 400, -(10 ** 400), 2 ** 53 + 1, 2 ** 63, 1.5, 0.0, -0.0, float("nan"), float("inf"), float("-inf"), 5e-324,
+             "2", " 2 ", "2.50", "x", "", "1e400", "-1e400", "nan", "inf", "-Infinity", "1_0", "0x10", "\u0663", "1e-400", [], [1], {}, {"a": 1}]
+
+
+def _entry(typ, on, attrs):
+    ob = {}
+    if typ != ABSENT:
+        ob["type"] = typ
+    if on != ABSENT:
+        ob["on"] = on
+    if attrs != ABSENT:
+        ob["attrs"] = attrs
+    return ob
+
+
+def step_grid(run: lib.Run, n_random: int, full: bool):
+    """(ob, current_effect, ctx) for the loop body: every (type, attrs) × every context for an entry aimed at the current effect; every
+    `on` × effect × type; malformed entries; then the full product (thorough) or a seeded sample of it (quick)"""
+    for typ, attrs, ctx in itertools.product(G_TYPES, G_ATTRS, G_CTX):
+        yield _entry(typ, ABSENT, attrs), "permit", ctx
+    for on, eff, typ, ctx in itertools.product(G_ONS, G_EFFECTS, G_TYPES, ({}, {"mfa": True}, {"auth_level": 2})):
+        yield _entry(typ, on, ABSENT), eff, ctx
+    for ob, eff, ctx in itertools.product(G_MALFORMED, G_EFFECTS, G_CTX):
+        yield ob, eff, ctx
+    if full:
+        for typ, on, attrs, eff, ctx in itertools.product(G_TYPES, G_ONS[1:], G_ATTRS, G_EFFECTS, G_CTX):
+            yield _entry(typ, on, attrs), eff, ctx
+    else:
+        r = random.Random(run.seed * 131 + 5)
+        pick = lambda xs: xs[r.randrange(len(xs))]  # noqa: E731
+        for _ in range(n_random):
+            yield _entry(pick(G_TYPES), pick(G_ONS), pick(G_ATTRS)), pick(G_EFFECTS), pick(G_CTX)
+
+
+def prologue_grid():
+    for dec, eff, allowed, obls in itertools.product([ABSENT, "permit", "deny", "Permit", "", None, 5], [ABSENT, "permit", "deny", None, ""],
+                                                     [ABSENT, True, False, 1], [ABSENT, None, [], [{"type": "require_mfa"}], {}, "x", [None]]):
+        d = {}
+        for k, v in (("decision", dec), ("effect", eff), ("allowed", allowed), ("obligations", obls)):
+            if v != ABSENT:
+                d[k] = v
+        yield (d,)
+
+
+def _ext_table(fn, *roots) -> list:
+    """the external function `fn` on every value reachable from `roots` (and the constants the source passes as defaults)"""
+    nodes: list = [None, 0, ""]      # `d.get(k)` of a missing key, the defaults of `attrs.get("min", 0)` / `attrs.get("scheme", "")`
+    for root in roots:
+        proto._walk(root, nodes)
+    seen, rows = set(), []
+    for v in nodes:
+        try:
+            e = proto.enc(v)
+        except TypeError:
+            continue
+        key = json.dumps(e)
+        if key in seen:
+            continue
+        seen.add(key)
+        rows.append([e, proto.enc(fn(v))])
+    return rows
+
+
+def translated_vs_python(run: lib.Run, facts: dict) -> tuple[bool, str]:
+    """each translated fragment of `check` (Generated.Src.check_prologue / check_step / check_final, evaluated by `lake env lean --run
+    Rbacx/Run/SrcEvalObl.lean`) against the SAME statement range of the current source text, wrapped into a Python function and run by
+    CPython; `_finite_number` — an external function on the Lean side — is handed to the evaluator as the table of the real function's
+    results, `str()` of floats/containers as the usual oracle table.  Also: the MODEL's `finiteNumber` against the real `_finite_number`
+    (what the obligation C07_translated puts in the external function's place).  Validates the translator's flow fragments and
+    Model/PyLib.lean — what C07_translated trusts."""
+    import copy
+    import subprocess
+    import pytolean
+    from extractors import src_translation_obligations as plug
+    src = open(robl.__file__, encoding="utf-8").read()
+    quick = run.tier == "quick"
+    grids = {"check_prologue": lambda: prologue_grid(), "check_step": lambda: step_grid(run, 2500 * run.boost, not quick),
+             "check_final": lambda: iter([(True,), (False,), (None,), ("permit",)])}
+    calls = []
+    for kind, start, lean_name in plug.FRAGMENTS:
+        try:
+            pyf, inputs, _outs = pytolean.fragment_as_python(src, plug.FUNCTION, kind, start, vars(robl))
+        except pytolean.Unsupported as e:
+            return False, f"fragment {lean_name}: {e}"
+        if inputs != facts[lean_name]["inputs"]:
+            return False, f"fragment {lean_name}: inputs of the imported module {inputs} differ from the extracted ones {facts[lean_name]['inputs']}"
+        flow = facts[lean_name]["flow"]
+        for args in grids[lean_name]():
+            try:
+                res = pyf(*copy.deepcopy(args))
+                if flow:
+                    want = ("ok", {"ret": proto.enc(res[1])} if res[0] == "ret" else {"next": [proto.enc(x) for x in res[1]]})
+                else:
+                    want = ("ok", {"ret": proto.enc(res)})
+            except Exception as e:  # noqa: BLE001
+                want = ("raised", type(e).__name__)
+            calls.append((lean_name, list(args), want))
+    for v in G_NUMBERS:
+        calls.append(("finiteNumber", [v], ("ok", {"ret": proto.enc(robl._finite_number(copy.deepcopy(v)))})))
+    lines = [json.dumps({"fn": fn, "args": [proto.enc(a) for a in args], "oracle": proto.build_oracle(*args),
+                         "ext": {"_finite_number": _ext_table(robl._finite_number, *args)} if fn == "check_step" else {}})
+             for fn, args, _ in calls]
+    p = subprocess.run(["lake", "env", "lean", "--run", "Rbacx/Run/SrcEvalObl.lean"], cwd=lib.LEAN, input="\n".join(lines) + "\n",
+                       capture_output=True, text=True, timeout=1800)
+    outs = [ln for ln in p.stdout.split("\n") if ln]
+    if p.returncode != 0 or len(outs) != len(lines):
+        return False, "SrcEvalObl: " + (p.stderr or p.stdout)[-800:]
+    bad = 0
+    for (fn, args, want), ln in zip(calls, outs):
+        got = json.loads(ln)
+        run.count("translated-obligations")
+        if want[0] != "ok":
+            run.count("translated-obligations: python raised (not judged)")
+            continue          # CPython raised (an argument outside the fragment's domain): not judged
+        run.count(f"translated-obligations: {fn} -> {'ret' if 'ret' in want[1] else 'next'}")
+        if got != want[1]:
+            bad += 1
+            if bad == 1:
+                what = ("the model's finiteNumber and the real _finite_number differ" if fn == "finiteNumber" else
+                        f"the translated fragment {fn} (Generated.Src) and the same statements run by CPython differ")
+                run.disagreements.append({"part": "translated source vs python", "fragment": fn, "args": args,
+                                          "impl": {"python": want[1]}, "model": got, "what": what})
+    run.evaluations += len(calls)
+    return bad == 0, f"{bad} of {len(calls)} evaluations differ" if bad else f"agree on {len(calls)} evaluations"
+
+
+def run_cases(run: lib.Run, audit: dict, scale: int = 1):
     quick = run.tier == "quick"
     batch, cmds = [], []
 
@@ -144,7 +296,7 @@ def run_cases(run: lib.Run, audit: dict):
     import random as _random
     rr = _random.Random(run.seed * 31 + 7)
     pool_obs = [ob for ob, _ in singles]
-    for _ in range(300 if quick else 3000):
+    for _ in range((300 if quick else 3000) * scale):
         obs = [pool_obs[rr.randrange(len(pool_obs))] for _ in range(rr.randrange(3, 6))]
         ctx = {}
         for k, vals in (("mfa", [True, False, 1]), ("auth_level", [0, 2, 3, "3", None]), ("consent", [True, False, {"k": 1}, {"tos": 1, "k": 0}]),
@@ -203,23 +355,57 @@ def check(run: lib.Run, audit: dict) -> int:
     run.rule = ("exhaustive: 9 obligation types × every attrs shape (valid/invalid/absent/non-dict) × 6 `on` values × 25 context values (absent, null, "
                 "booleans, numbers incl. NaN/Inf/10^400/fractions, numeric and non-numeric strings, lists, objects) through the checker; all ordered "
                 "pairs of 8 obligations × 4 contexts (first-failure order); lists with several obligations of one type; random lists of 3–5 obligations; "
-                "every call answered by a fresh and by one long-lived checker instance; through Guard (also with raising/recording metric and log sinks) × {built-in, raising, 10 custom verdicts} × sync/async. "
+                "every call answered by a fresh and by one long-lived checker instance; through Guard (also with raising/recording metric and log sinks) × {built-in, raising, 10 custom verdicts} × sync/async; "
+                "the translated source of BasicObligationChecker.check (three fragments) vs the same statements run by CPython: 12 types × 27 attrs shapes × "
+                "25 contexts, 7 `on` values × 2 effects × 12 types, malformed entries, a seeded sample (quick) / all (thorough) of the full product, "
+                "7×5×4×7 raw-decision shapes for the statements before the loop; the model's finiteNumber vs the real _finite_number on 36 values. "
                 "non-trivial = the obligation is unmet / the permit is revoked")
     run.exhaustive = True
     run.assumptions = ["Context.attrs is an object or null", "float(str) is an oracle computed by the harness"]
     if not audit["ok"]:
         raise lib.CheckError(f"Lean build/audit failed at {audit['stage']}: {audit.get('log') or audit.get('forbidden') or audit.get('bad_axioms')}")
-    run_cases(run, audit)
+    # the checker as it is written NOW, translated into Lean, is proved equal to the model's (per-run obligation)
+    tr = audit["facts"].get("translated_obligations")
+    untranslatable = isinstance(tr, dict) and "extraction_failed" in tr
+    ok_tr, detail_tr = lib.run_obligation("C07_translated")
+    run.obligation("C07_translated: Generated.Src.{check_prologue,check_step,check_final} (the current source text of BasicObligationChecker.check, "
+                   "_finite_number as an external function) = prologueModel / obligationUnmet / checkObligations of the model, for every obligation "
+                   "entry, context, oracle and string effect", ok_tr,
+                   "discharged" if ok_tr else (str(tr["extraction_failed"]) if untranslatable else detail_tr))
+    if untranslatable or not isinstance(tr, dict):
+        ok_py, detail_py = True, "skipped: the checker is not in the translatable subset (see C07_translated)"
+    else:
+        ok_py, detail_py = translated_vs_python(run, tr)
+    run.obligation("translated checker evaluates like the same statements run by CPython; the model's finiteNumber like the real _finite_number "
+                   "(translator + Model/PyLib.lean + the external function vs CPython)", ok_py, detail_py)
+    run_cases(run, audit, scale=run.boost * (1 if ok_tr else 2))
     violations = []
     if run.spec_failures:
         path = run.write_replay("spec", {"what": "C07 violated", "case": run.spec_failures[0], "count": len(run.spec_failures)})
         violations.append((path, True))
+    elif not ok_tr:
+        path = run.write_replay("obligation", {"what": "per-run obligation Rbacx/Run/C07_translated.lean no longer checks: the translated source of "
+                                               "BasicObligationChecker.check is not proved equal to the model's obligationUnmet / checkObligations, the "
+                                               "functions theorems Rbacx.C07.* are about; the widened search found no obligation list and context on "
+                                               "which the checker deviates from the documented table",
+                                               "translation": tr, "lean": detail_tr[-1500:], "first_disagreement": run.disagreements[:1]})
+        violations.append((path, False))
+    elif run.disagreements or not ok_py:
+        first = run.disagreements[0] if run.disagreements else {"part": "translated source vs python", "what": detail_py}
+        path = run.write_replay("correspondence", {"what": "translated source vs python: " + str(first.get("what")) + "; the obligation "
+                                                   "C07_translated rests on a translation that CPython contradicts (or that could not be evaluated)",
+                                                   "first": first, "count": len(run.disagreements)})
+        violations.append((path, False))
     return run.finish(audit, violations)
 
 
 def replay(run: lib.Run, audit: dict, path: str) -> int:
-    import json
-    c = json.load(open(path))["case"]
+    rp = json.load(open(path))
+    c = rp.get("case")
+    if c is None:
+        print("nothing to re-run on the implementation:", rp.get("what"))
+        print("recorded:", rp.get("first") or rp.get("first_disagreement") or rp.get("lean"))
+        return 0
     if "obligations" in c:
         print("impl now:", check_impl(c["obligations"], c["ctx"], c.get("decision", "permit")), "documented:", c["documented"])
     else:
